@@ -62,7 +62,13 @@ fn main() {
             for c in &cases {
                 let id = c["id"].as_str().unwrap_or("?").to_string();
                 let model = conv::model_from_case(c);
-                let ev = lin::lin_event(&id, model);
+                let mut ev = lin::lin_event(&id, model);
+                // a user variable with a `$` name may be the name the compiler gives an auxiliary: the same
+                // model with those variables renamed to plain names (u0, u1, ...) is compiled too, and the
+                // number of variables of both compilations is reported
+                if let Some(twin) = lin::renamed_twin(c) {
+                    ev["plain"] = twin;
+                }
                 writeln!(out, "{}", ev).unwrap();
             }
         }
